@@ -153,16 +153,20 @@ add("C19",
     "stated_not_proved: C19_super / C19_stable as invariants over all World histories.",
     "Lean 4 proof (MRO-remainder lemma, cache hit) + differential correspondence of the integrated model + MRO-remainder oracle on the real objects", "6/C19")
 add("C16",
-    "Theorems about the bookkeeping the statement spells out: C16_unregisterUtility (False and no event without an entry or with a component that is not == the "
-    "registered one; otherwise True, exactly one Unregistered, the entry gone from the listing), C16_registerUtility_events (a first registration emits Registered, the "
-    "very same (component, info) again is a no-op without events, a replacement emits Unregistered then Registered), C16_adapters, C16_subscriptions (one event per "
-    "call that changed something, unregister returns whether anything was removed, listings updated accordingly), C16_pinned_violates (kernel-checked: the pinned "
-    "unregisterUtility raised TypeError half-way for an unhashable component equal to the registered hashable one). The full Components model (counter cache with its "
-    "switch to the non-hashing counter, both registries, probe) is compared with both twins after every call, and return values, events, the four listings, utility / "
-    "adapter / subscription queries and the probe are judged against listings kept by the harness.",
-    "stated_not_proved: C16_queries / C16_counts / C16_probe (registries = registries populated from the listings) as invariants over all histories. "
-    "Events of the six non-utility methods follow interfaces.py ('an event is generated' per call). Known finding utilities-mixed-hashability-double-subscription.",
-    "Lean 4 proof (return values / events / listing updates of the eight methods) + differential correspondence + listing oracle", "6/C16")
+    "Theorems over ALL histories of the eight register/unregister methods interleaved with queries, pickle re-loads and re-initialisations (ZI/Props/C16Hist.lean, on "
+    "ZI.Components = the executable the correspondence runs): inv_step / inv_run (a nine-clause invariant is kept by every call), C16_queries (the utility registry's "
+    "registrations are exactly the utility listing, the adapter registry's exactly the adapter listing — the same objects —, the subscription leaves exactly the "
+    "subscription-adapter / handler listings filtered by key IN LISTING ORDER), C16_counts (the {provided: {component: count}} cache = listing entries per (provided, "
+    "component under ==)), C16_all_utilities (getAllUtilitiesRegisteredFor's leaf holds each listed component once per equality class), C16_probe "
+    "(rebuildUtilityRegistryFromLocalCache finds nothing to repair: probe = (0, 0) in every reachable state), C16_no_TypeError; mixed_hashability_breaks is the "
+    "kernel-checked witness that the guard is necessary. Per call, in any state (ZI/Props/C16.lean): C16_unregisterUtility, C16_registerUtility_events (a replacement emits "
+    "Unregistered then Registered, a no-op nothing), C16_adapters, C16_subscriptions (one event per call that changed something, unregister returns whether anything "
+    "was removed), C16_pinned_violates. The model is compared with both twins after every call, and return values, events, the four listings, utility / adapter / "
+    "subscription queries and the probe are judged against listings kept by the harness.",
+    "Guard HashClass (hashability is a function of the equality class; outside it the real code double-subscribes: known finding "
+    "utilities-mixed-hashability-double-subscription, judged by the oracle only). Lookups are functions of the leaves by C04 / C07 (static specification graph). "
+    "Events of the six non-utility methods follow interfaces.py ('an event is generated' per call).",
+    "Lean 4 proof (invariant over all histories of the eight methods; per-call return values / events) + differential correspondence + listing oracle", "6/C16")
 add("C10",
     "PARTIAL. Proved: the twin theorems C12_twin / c_eq_py (IB_richcompare = the Python comparison for all six operators and all operands with string names) and "
     "C14_twin / callC_eq_callPy (IB__call__ / IB__adapt__ incl. the _CALL_CUSTOM_ADAPT dispatch = InterfaceBase.__call__) — the C decision logic is modelled "
